@@ -18,6 +18,7 @@ rows under several orders and must reproduce what the implementation printed.
 import concurrent.futures
 import hashlib
 import os
+import random
 import re
 import shutil
 
@@ -101,6 +102,7 @@ class Case:
         toks = list(g.tokens) + [t for t in g.implicit if t not in g.tokens]
         self.lex = lex_source(toks)
         self.inputs = inputs
+        self.knobs = {}
         self.n_implicit = len(g.implicit) if kind == "E" else 0
         self.optional = [k for k, v in (("prec", g.precs), ("avoid_insert", g.avoid_insert),
                                         ("implicit_tokens", self.n_implicit), ("epp", opts.get("epp")),
@@ -110,8 +112,9 @@ class Case:
                          if v]
 
     def line(self):
-        return "%s %s %s ; %s" % (self.kind, core_hex(self.src), core_hex(self.lex),
-                                  " ; ".join(" ".join(i) for i in self.inputs))
+        knobs = ",".join("%s=%s" % kv for kv in sorted(self.knobs.items())) or "-"
+        return "%s %s %s %s ; %s" % (self.kind, core_hex(self.src), core_hex(self.lex), knobs,
+                                     " ; ".join(" ".join(i) for i in self.inputs))
 
 
 def core_hex(s):
@@ -276,6 +279,197 @@ def gen_cases(ctx):
     return cases
 
 
+def rarely_used_knobs(cases):
+    """every second grammar case is generated with some of the rarely used public knobs of the two builders set
+    (module names, visibilities incl. pub(in ..), rust editions, recoverer, explicit lexerkind, allow_missing_*,
+    show_warnings).  Own RNG: the grammars themselves stay what they were."""
+    for ci, c in enumerate(cases):
+        if ci % 2 == 0:
+            continue
+        r = random.Random(7919 * ci + 1)
+        k = {}
+        for name, vals, p in (("pvis", "012345", 0.6), ("lvis", "012345", 0.6), ("ped", ["15", "18", "21"], 0.4),
+                              ("led", ["15", "18", "21"], 0.4), ("pmod", ["parm", "g_parser"], 0.4),
+                              ("lmod", ["lexm", "g_lexer"], 0.4), ("rec", "CN", 0.4), ("lk", "1", 0.3),
+                              ("amtl", "01", 0.5), ("amtp", "01", 0.5), ("lsw", "01", 0.25), ("psw", "01", 0.25)):
+            if r.random() < p:
+                k[name] = r.choice(list(vals))
+        c.knobs = k
+
+
+_LEX_WORDS = ["INT_DEC", "INT_HEX", "INT_BIN", "INT_OCT", "FLOAT", "LOWER_ID", "UPPER_ID", "PRIV_ID", "STRING", "RAW_STRING",
+              "CHAR", "KW_IF", "KW_ELSE", "KW_WHILE", "KW_FOR", "LPAREN", "RPAREN", "LBRACK", "RBRACK", "COMMA", "SEMI",
+              "plus", "minus", "star", "slash", "Eq", "NotEq", "lt", "gt", "AND_AND", "OR_OR", "T0", "T1", "T2", "T3", "_u"]
+
+
+def lexer_alone_cases(n):
+    """lexers built WITHOUT a parser from a user-supplied CTLexerBuilder::rule_ids_map (e.g. for a hand-written
+    parser) in which several names share one token id.  Returns dicts {shape, lex, map, opts, names_sharing}."""
+    out = []
+    shapes = ["all_one_id", "pairs", "mixed_groups", "one_big_group", "triples", "unique", "int_kinds", "extra_and_missing",
+              "non_identifier_names", "sparse_ids", "no_map", "mixed_groups", "pairs", "all_one_id"]
+    for i in range(n):
+        r = random.Random(104729 * i + 13)
+        shape = shapes[i % len(shapes)]
+        nn = r.randint(8, 14)
+        names = r.sample(_LEX_WORDS, nn)
+        groups = []                       # sizes of the classes of names sharing one id
+        if shape == "all_one_id":
+            groups = [nn]
+        elif shape == "pairs":
+            groups = [2] * (nn // 2) + [1] * (nn % 2)
+        elif shape == "triples":
+            groups = [3] * (nn // 3) + [1] * (nn % 3)
+        elif shape == "one_big_group":
+            groups = [6] + [1] * (nn - 6)
+        elif shape in ("unique", "no_map"):
+            groups = [1] * nn
+        elif shape == "int_kinds":
+            names = ["INT_HEX", "INT_BIN", "INT_OCT", "INT_DEC", "LOWER_ID", "UPPER_ID", "PRIV_ID", "STRING", "RAW_STRING"]
+            groups = [4, 3, 2]
+        else:
+            left = len(names)
+            while left:
+                gsz = min(left, r.choice([1, 1, 2, 2, 3, 4, 5, 6]))
+                groups.append(gsz)
+                left -= gsz
+            if max(groups) < 2:
+                groups = [2] + groups[2:] if len(groups) > 2 else groups
+                if sum(groups) != len(names):
+                    names = names[:sum(groups)]
+        ids = list(range(len(groups)))
+        if shape == "sparse_ids":
+            ids = sorted(r.sample(range(0, 250), len(groups)))
+        r.shuffle(ids)
+        mp, k = [], 0
+        for gid, gsz in zip(ids, groups):
+            for _ in range(gsz):
+                mp.append((names[k], gid))
+                k += 1
+        lex_names = list(names)
+        opts = {"reps": "3"}
+        if shape == "non_identifier_names":
+            # names that are no Rust identifiers get no constant; they share ids with names that do
+            for sym in r.sample(["+", "-", "*", "==", "<=", "("], 3):
+                mp.append((sym, r.choice(ids)))
+                lex_names.append(sym)
+        if shape == "extra_and_missing":
+            # names of the map without a lexing rule (allowed explicitly) and a rule without an entry in the map
+            for extra in ("ONLY_IN_MAP_A", "ONLY_IN_MAP_B", "ONLY_IN_MAP_C"):
+                mp.append((extra, r.choice(ids)))
+            lex_names.append("ONLY_IN_LEXER")
+            opts["amtl"] = "1"
+        r.shuffle(mp)
+        rules = ["%%"]
+        for j, nm in enumerate(lex_names):
+            rules.append('k%dx[0-9]* "%s"' % (j, nm))
+        rules.append("[ \\t\\n]+ ;")
+        lex = "\n".join(rules) + "\n"
+        for name, vals, p in (("mod", ["lexmod", "ints_l"], 0.5), ("vis", "012345", 0.5), ("ed", ["15", "18", "21"], 0.3),
+                              ("lk", "1", 0.3), ("amtp", "01", 0.5), ("sw", "01", 0.2), ("ci", "01", 0.2),
+                              ("api", ["build", "pf"], 0.4), ("st", ["u8", "u16", "u32"], 0.5)):
+            if r.random() < p:
+                opts[name] = r.choice(list(vals))
+        if "amtl" not in opts and r.random() < 0.4:
+            opts["amtl"] = r.choice("01")
+        cnt = {}
+        for nm, gid in mp:
+            if re.match(r"^[a-zA-Z_][a-zA-Z_0-9]*$", nm):
+                cnt[gid] = cnt.get(gid, 0) + 1
+        out.append({"shape": shape, "lex": lex, "map": None if shape == "no_map" else mp, "opts": opts,
+                    "names_sharing": max(cnt.values()) if shape != "no_map" else 0})
+    return out
+
+
+def lexer_alone_line(c):
+    mp = "-" if c["map"] is None else (",".join("%s=%d" % (core_hex(n), i) for n, i in c["map"]) or "=")
+    return "L %s %s %s" % (core_hex(c["lex"]), mp, ",".join("%s=%s" % kv for kv in sorted(c["opts"].items())) or "-")
+
+
+def check_lexer_alone(ctx, exe, N):
+    """(2b) generated bytes of lexers built alone from a rule_ids_map with shared ids: N processes x 3 builds each
+    (every build gets a freshly constructed map = fresh hash keys); all outcomes and all digests must agree."""
+    lcases = lexer_alone_cases(ctx.n(42, 168))
+    llines = [lexer_alone_line(c) for c in lcases]
+    res = run_procs(exe, "lexgen", llines, N, env={"C15_KEEP": "1"})
+    ok = True
+    nbuilds = 0
+    shapes = {}
+    for ci, c in enumerate(lcases):
+        rs = [res[k][ci] for k in range(N)]
+        samples = []                 # (process, repetition, outcome, digest)
+        dirs = {}
+        broken = None
+        for k, x in enumerate(rs):
+            parts = x.split(" # ")
+            if not x.startswith("LGEN"):
+                broken = x
+                continue
+            d = [s.split()[1] for s in parts if s.startswith("DIR ")]
+            dirs[k] = d[0] if d else None
+            body = [s for s in parts if not s.startswith("DIR ")]
+            for rep_ in range(len(body) // 2):
+                samples.append((k, rep_, body[2 * rep_], body[2 * rep_ + 1]))
+        nbuilds += len(samples)
+        shapes[c["shape"]] = shapes.get(c["shape"], 0) + 1
+        ctx.count("lexer_alone_shape_" + c["shape"])
+        ctx.count("lexer_alone_names_sharing_an_id_%s" % ("1" if c["names_sharing"] <= 1 else "2" if c["names_sharing"] == 2
+                                                          else "3-6" if c["names_sharing"] <= 6 else "7+"))
+        ctx.count("lexer_alone_api_" + c["opts"].get("api", "build"))
+        base = {"lexer": c["lex"], "rule_ids_map": c["map"], "settings": c["opts"], "shape": c["shape"], "processes": N,
+                "builds_per_process": 3, "entry": "CTLexerBuilder::rule_ids_map(..) without lrpar_config",
+                "replay_cmd": "echo '%s' | .work/target/release/c15 lexgen   # compare the F digests" % llines[ci]}
+        if broken is not None:
+            if len(set(x.split()[0] for x in rs)) > 1:
+                ctx.violation(dict(base, what="building a lexer alone hangs/crashes in some processes only",
+                                   outcomes=sorted(set(x[:160] for x in rs))))
+            else:
+                ctx.violation(dict(base, what="lexer-alone harness mode failed", outcomes=sorted(set(x[:160] for x in rs))),
+                              no_input=True)
+            ok = False
+            continue
+        ctx.count("lexer_alone_" + samples[0][2].split()[1])
+        ctx.case("lexer-alone " + sha(llines[ci]), c["names_sharing"] >= 2,
+                 {"lexer": c["lex"], "rule_ids_map": c["map"], "settings": c["opts"], "outcome": samples[0][2][:80],
+                  "distinct_digests": len(set(s[3] for s in samples))})
+        if len(set(s[2] for s in samples)) > 1:
+            ok = False
+            ctx.violation(dict(base, what="the same lexer source, rule ids map and settings build in some runs and fail in others",
+                               outcomes=sorted(set(s[2][:200] for s in samples))))
+            continue
+        if len(set(s[3] for s in samples)) > 1:
+            ok = False
+            a = samples[0]
+            b = next(s for s in samples if s[3] != a[3])
+            wit = dict(base, what="generated lexer module bytes (build time removed) differ between two builds of the same lexer "
+                                  "source with equal rule ids maps and settings",
+                       build_a={"process": a[0], "repetition": a[1], "digest": a[3]},
+                       build_b={"process": b[0], "repetition": b[1], "digest": b[3]},
+                       distinct_digests=len(set(s[3] for s in samples)))
+            try:
+                fa = os.path.join(dirs[a[0]], "r%d" % a[1], "g.l.rs")
+                fb = os.path.join(dirs[b[0]], "r%d" % b[1], "g.l.rs")
+                la, lb = norm_generated(fa, dirs[a[0]]).splitlines(), norm_generated(fb, dirs[b[0]]).splitlines()
+                ld = first_diff(la, lb)
+                if ld:
+                    wit["first_differing_line"] = {"line": ld[0] + 1, "a": ld[1][:300], "b": ld[2][:300]}
+                ca = [l.strip() for l in la if l.strip().startswith("pub const N_")]
+                cb = [l.strip() for l in lb if l.strip().startswith("pub const N_")]
+                if ca != cb and sorted(ca) == sorted(cb):
+                    wit["token_constants_a"], wit["token_constants_b"] = ca, cb
+            except Exception as e:          # the kept directories are only used for the explanation
+                wit["explanation_unavailable"] = str(e)[:100]
+            ctx.violation(wit)
+    ctx.oblige(ok, "generated_bytes_lexer_alone")
+    ctx.coverage["lexer_alone"] = {"cases": len(lcases), "builds_compared": nbuilds, "shapes": shapes,
+                                   "rule": "8-17 lexing rule names; rule_ids_map shapes: all names one id, pairs, triples, one group "
+                                           "of 6 + unique, random groups of 1-6, unique ids (control), INT_*/ID aliases, names only in "
+                                           "the map / only in the lexer, non-identifier names, sparse ids, no map; random mod_name / "
+                                           "visibility / rust_edition / lexerkind / allow_missing_* / show_warnings / case_insensitive "
+                                           "/ StorageT / build() vs deprecated process_file(); %d processes x 3 builds with freshly "
+                                           "constructed maps each" % N}
+
+
 # ----------------------------------------------------------------------------- running
 def run_procs(exe, mode, lines, nproc, env=None):
     """nproc separate processes, each fed ALL lines (every process has its own hash seeds;
@@ -426,6 +620,7 @@ def run(ctx):
 def _run(ctx, exe, mexe, rng):
     N = ctx.n(8, 16)
     cases = gen_cases(ctx)
+    rarely_used_knobs(cases)
     lines = [c.line() for c in cases]
     dig = run_procs(exe, "digest", lines, N)
     gen = run_procs(exe, "gen", lines, N, env={"C15_KEEP": "1"})
@@ -446,6 +641,9 @@ def _run(ctx, exe, mexe, rng):
         ctx.count("family_" + c.fam)
         replay = "echo '%s' | .work/target/release/c15 digest   # run it several times" % c.line()
         base = {"grammar": c.src, "yacckind": c.kind, "processes": N}
+        if c.knobs:
+            base["builder_knobs"] = c.knobs
+            ctx.count("cases_with_rarely_used_builder_knobs")
         if any(x.startswith(("HANG", "CRASH", "BUILDPANIC")) for x in ds):
             bad = [x for x in ds if x.startswith(("HANG", "CRASH", "BUILDPANIC"))][0]
             # a crash is not C15's subject unless it happens in some processes only
@@ -681,6 +879,9 @@ def _run(ctx, exe, mexe, rng):
                         errs.append("state %d: sorted-conflicts variant depends on the edge order" % s)
                     return errs
                 model_expect.append((c, chk, "row"))
+
+    # ---- (2b) lexers built alone from a user-supplied rule ids map ----
+    check_lexer_alone(ctx, exe, N)
 
     # ---- run the extracted mirrors ----
     mout = core.run_lines([mexe], model_cases)
